@@ -33,3 +33,70 @@ package engine
 //@   ensures [total] true
 //@   loop 1 invariant [idx-in-bounds] 0 <= idx && idx <= len(data)
 //@   loop 1 invariant [entries-bounded] 0 <= rangeint_iter && len(entries) <= rangeint_iter && rangeint_iter <= count && count <= len(data)
+
+// C21 kernel (persist before act): raft log entries and hard state reach the WAL before
+// the in-memory raft storage is updated and before the manifest pointer moves; a failed
+// WAL append changes neither. Ghost state records, at each memory update / pointer log,
+// how many WAL appends had succeeded.
+//@ ghost var raftWalAppends Int
+//@ ghost var raftMemUpdates Int
+//@ ghost var memUpdateSawWal Int
+//@ ghost var raftPointerLogs Int
+//@ ghost var pointerLogSawWal Int
+//@ func github.com/feichai0017/NoKV/wal::(*Manager).AppendRecords
+//@   trusted
+//@   ghost raftWalAppends = (result1 == nil ? raftWalAppends + 1 : raftWalAppends)
+//@   modifies nothing
+//@ func go.etcd.io/raft/v3::(*MemoryStorage).Append
+//@   trusted
+//@   ghost raftMemUpdates = raftMemUpdates + 1
+//@   ghost memUpdateSawWal = raftWalAppends
+//@   modifies nothing
+//@ func go.etcd.io/raft/v3::(*MemoryStorage).SetHardState
+//@   trusted
+//@   ghost raftMemUpdates = raftMemUpdates + 1
+//@   ghost memUpdateSawWal = raftWalAppends
+//@   modifies nothing
+//@ func github.com/feichai0017/NoKV/manifest::(*Manager).LogRaftPointer
+//@   trusted
+//@   ghost raftPointerLogs = raftPointerLogs + 1
+//@   ghost pointerLogSawWal = raftWalAppends
+//@   modifies nothing
+//@ func github.com/feichai0017/NoKV/raft::var IsEmptyHardState
+//@   trusted
+//@   ensures [empty-means-all-zero] result == (p0.Term == 0 && p0.Vote == 0 && p0.Commit == 0)
+//@   modifies nothing
+//@ func github.com/feichai0017/NoKV/raftstore/failpoints::ShouldSkipManifestUpdate
+//@   trusted
+//@   modifies nothing
+//@ func encodeRaftEntries
+//@   trusted
+//@   modifies nothing
+//@ func encodeRaftHardState
+//@   trusted
+//@   modifies nothing
+//@ func (*WALStorage).recordEntrySpan
+//@   trusted
+//@   modifies nothing
+
+//@ func (*WALStorage).updatePointer
+//@   property C21
+//@   ensures [at-most-one-log] raftPointerLogs <= old(raftPointerLogs) + 1 && raftPointerLogs >= old(raftPointerLogs)
+//@   ensures [log-sees-current-wal] raftPointerLogs > old(raftPointerLogs) ==> pointerLogSawWal == raftWalAppends
+//@   modifies ws.pointer, ghost(raftPointerLogs), ghost(pointerLogSawWal)
+
+//@ func (*WALStorage).Append
+//@   property C21
+//@   requires ws != nil && ws.wal != nil && ws.mem != nil
+//@   ensures [persist-before-memory] raftMemUpdates > old(raftMemUpdates) ==> memUpdateSawWal > old(raftWalAppends)
+//@   ensures [persist-before-pointer] raftPointerLogs > old(raftPointerLogs) ==> pointerLogSawWal > old(raftWalAppends)
+//@   ensures [failed-persist-changes-nothing] raftWalAppends == old(raftWalAppends) ==> raftMemUpdates == old(raftMemUpdates) && raftPointerLogs == old(raftPointerLogs)
+//@   ensures [success-means-persisted] result == nil && len(entries) != 0 ==> raftWalAppends == old(raftWalAppends) + 1 && raftMemUpdates == old(raftMemUpdates) + 1
+
+//@ func (*WALStorage).SetHardState
+//@   property C21
+//@   requires ws != nil && ws.wal != nil && ws.mem != nil
+//@   ensures [persist-before-memory] raftMemUpdates > old(raftMemUpdates) && !(st.Term == 0 && st.Vote == 0 && st.Commit == 0) ==> memUpdateSawWal > old(raftWalAppends)
+//@   ensures [persist-before-pointer] raftPointerLogs > old(raftPointerLogs) ==> pointerLogSawWal > old(raftWalAppends)
+//@   ensures [failed-persist-changes-nothing] raftWalAppends == old(raftWalAppends) && !(st.Term == 0 && st.Vote == 0 && st.Commit == 0) ==> raftMemUpdates == old(raftMemUpdates) && raftPointerLogs == old(raftPointerLogs)
+//@   ensures [success-means-persisted] result == nil && !(st.Term == 0 && st.Vote == 0 && st.Commit == 0) ==> raftWalAppends == old(raftWalAppends) + 1 && raftMemUpdates == old(raftMemUpdates) + 1
